@@ -1384,13 +1384,18 @@ class Tr:
 
 
 def find_function(tree, qual):
+    # "Class.prop@setter": the function decorated with `@prop.setter` (a property has two functions of one name)
+    qual, _, role = qual.partition("@")
     parts = qual.split(".")
     body = tree.body
     node = None
-    for p in parts:
+    for k, p in enumerate(parts):
         node = None
         for n in body:
             if isinstance(n, (ast.ClassDef, ast.FunctionDef)) and n.name == p:
+                if role and k == len(parts) - 1 and not any(
+                        isinstance(d, ast.Attribute) and d.attr == role for d in getattr(n, "decorator_list", [])):
+                    continue
                 node = n
                 break
         if node is None:
@@ -1570,6 +1575,16 @@ def driver_source(specs, status, src_root):
                                ' (fun g => match g with | none => Except.error Err.other | some k => '
                                'if ((fromJ (argAt args 12)) : List Nat).contains k then Except.error Err.other '
                                'else Except.ok ((((fromJ (argAt args 13)) : List (Nat × Nat)).lookup k))) ' + me.replace("K", "14") + ")")
+            continue
+        if spec.get("group") == "GridMemo":
+            imports.append(f"import FinamModel.Translated.{spec['lean']}")
+            if spec["lean"] == "RectilinearGrid_set_data_location":
+                # `_check_location`: the valid locations of the grid as a list
+                cases.append('  | "RectilinearGrid_set_data_location" => toJ (Tr.RectilinearGrid_set_data_location (fromJ (argAt args 0)) '
+                             '(fromJ (argAt args 1)) (fromJ (argAt args 2)) (fromJ (argAt args 3)) '
+                             '(fun l => if ((fromJ (argAt args 4)) : List Nat).contains l then Except.ok l else Except.error Err.other))')
+            else:
+                cases.append(f'  | "{spec["lean"]}" => toJ (Tr.{spec["lean"]} (fromJ (argAt args 0)) (fromJ (argAt args 1)))')
             continue
         if spec.get("group") == "MaskRules":
             imports.append(f"import FinamModel.Translated.{spec['lean']}")
